@@ -4,3 +4,5 @@ import RB.Model.Stats
 import RB.Proofs.C15
 import RB.Model.DB
 import RB.Proofs.C17
+import RB.Model.Report
+import RB.Proofs.C18
